@@ -142,12 +142,14 @@ func (s *sliceMachine) Discard(ctx context.Context, task *Task) {
 		task.Set(TaskLost)
 		return
 	}
-	// s exclusively owns task's state during this time, so this does not race
-	// with anything else.
-	task.Set(TaskLost)
+	// s exclusively owns task's state while the task is parked in TaskRunning.
+	// Release the worker's copy first: if the task were marked lost before
+	// the worker has let go of it, an evaluator could resubmit it while the
+	// worker still considers it done (and is about to delete its output).
 	if err := s.RetryCall(ctx, "Worker.Discard", task.Name, nil); err != nil {
 		log.Error.Printf("error discarding %v: %v", task, err)
 	}
+	task.Set(TaskLost)
 }
 
 // Go manages a sliceMachine: it polls stats at regular intervals and
